@@ -1,9 +1,9 @@
 (** C06 — all ranks issue matching collectives; no layout change can deadlock; the route between
-    layouts does not depend on the interpreter's set iteration order.
-    Statements only; proofs in Collectives.v, TraceCheck.v, Routes.v. *)
-From Coq Require Import List Arith Bool.
+    layouts does not depend on the interpreter's set iteration order (for every number of layouts).
+    Statements only; proofs in Collectives.v, TraceCheck.v, Routes.v, RoutesGeneral.v. *)
+From Coq Require Import List Arith Bool Permutation.
 Import ListNotations.
-From PGV Require Import Collectives TraceCheck Routes.
+From PGV Require Import Collectives TraceCheck Routes RoutesGeneral.
 
 (** Whatever the programs of the ranks (interaction trees blocked on collectives) and whatever the
     communicator structure: every maximal execution fires the same number of collectives and ends in
@@ -53,14 +53,55 @@ Theorem c06_routes_order_independent_le4 : order_independent_upto 3 = true /\ or
 Proof. exact routes_order_independent_le4. Qed.
 Print Assumptions c06_routes_order_independent_le4.
 
+(** the same for EVERY number n of layouts: for every connection table that is symmetric with entries below n
+    (DirectConnections as LayoutHandler builds it, in any insertion order), every ranking of the names that is
+    injective on the layouts (string comparison of distinct names), and every two iteration orders of the set of
+    layouts (permutations of 0..n-1), the two route tables are equal.  Hence all ranks, whatever their
+    PYTHONHASHSEED, hold the same route table *)
+Theorem c06_routes_order_independent :
+  forall (n : nat) (conn : nat -> list nat) (nrank : nat -> nat) (order1 order2 : list nat),
+  (forall a b, In b (conn a) -> In a (conn b)) ->
+  (forall a b, In b (conn a) -> b < n) ->
+  (forall x y, x < n -> y < n -> nrank x = nrank y -> x = y) ->
+  Permutation (seq 0 n) order1 -> Permutation (seq 0 n) order2 ->
+  route_table n conn nrank order1 = route_table n conn nrank order2.
+Proof. exact routes_order_independent. Qed.
+Print Assumptions c06_routes_order_independent.
+
+(** instance for the tables the harness and the sweeps use: conn_of (any list of edges between layouts below n)
+    and rank_of (alphabetical rank given as a permutation) *)
+Theorem c06_routes_order_independent_names :
+  forall (n : nat) (edges : list (nat * nat)) (names order1 order2 : list nat),
+  (forall a b, In (a, b) edges -> a < n /\ b < n) ->
+  Permutation (seq 0 n) names -> Permutation (seq 0 n) order1 -> Permutation (seq 0 n) order2 ->
+  route_table n (conn_of edges) (rank_of names) order1 = route_table n (conn_of edges) (rank_of names) order2.
+Proof. exact routes_order_independent_names. Qed.
+Print Assumptions c06_routes_order_independent_names.
+
+(** the finite sweep of Routes.v (all graphs x all name orders x all iteration orders on n layouts) is true for every n *)
+Theorem c06_order_independent_upto_all : forall n, order_independent_upto n = true.
+Proof. exact order_independent_upto_all. Qed.
+Print Assumptions c06_order_independent_upto_all.
+
+(** non-vacuity of the route theorem: on the square 0-1-3-2-0 the two shortest routes 0 -> 3 tie; the name ranking
+    decides ([1;3] when layout 1 sorts before layout 2, [2;3] otherwise), the iteration order does not *)
+Example c06_routes_example :
+  route_table 4 (conn_of [(0,1);(0,2);(1,3);(2,3)]) (rank_of [0;1;2;3]) [0;1;2;3] =
+    [[[]; [1]; [2]; [1; 3]]; [[0]; []; [0; 2]; [3]]; [[0]; [0; 1]; []; [3]]; [[1; 0]; [1]; [2]; []]] /\
+  route_table 4 (conn_of [(0,1);(0,2);(1,3);(2,3)]) (rank_of [0;1;2;3]) [3;2;1;0] =
+    [[[]; [1]; [2]; [1; 3]]; [[0]; []; [0; 2]; [3]]; [[0]; [0; 1]; []; [3]]; [[1; 0]; [1]; [2]; []]] /\
+  route_table 4 (conn_of [(0,1);(0,2);(1,3);(2,3)]) (rank_of [0;2;1;3]) [3;2;1;0] =
+    [[[]; [1]; [2]; [2; 3]]; [[0]; []; [0; 2]; [3]]; [[0]; [0; 1]; []; [3]]; [[2; 0]; [1]; [2]; []]].
+Proof. vm_compute. repeat split; reflexivity. Qed.
+
 (** non-vacuity: two ranks, world communicator 0 and two singleton communicators; a mismatch is rejected *)
 Example c06_example :
   traces_ok [[0; 1]; [0]; [1]] [[(0, 5); (1, 7); (0, 5)]; [(0, 5); (2, 7); (0, 5)]] = true /\
   traces_ok [[0; 1]; [0]; [1]] [[(0, 5); (0, 6)]; [(0, 6); (0, 5)]] = false.
 Proof. vm_compute. split; reflexivity. Qed.
 
-(** the finite sweep can be run in slices (used for 5 layouts with the extracted code in the thorough tier):
-    if every slice is true the whole sweep is *)
+(** the finite sweep can be run in slices (kept as a cross-check of the extracted code in the thorough tier, 5 layouts;
+    its outcome is now also a consequence of c06_order_independent_upto_all): if every slice is true the whole sweep is *)
 From PGV Require Import RoutesSweep.
 Theorem c06_slices_cover : forall n m, 0 < m ->
   (forall k, k < m -> order_independent_slice n k m = true) -> order_independent_upto n = true.
